@@ -4,6 +4,7 @@ import numpy as np, pandas as pd
 from common import *
 import tree_streams as TS
 import e2e_streams as ES
+import anon_streams as AS
 
 MODULE = "Props.C01"
 THEOREMS = ["C01_leaf_suppressed", "C01_floor_generic", "C01_floor_unique", "C01_safe_values_backed", "C01_verbatim_only_safe",
@@ -136,7 +137,50 @@ def stream_strings(ctx, ntables):
                                      "sing": bp.singularity_low_threshold, "range": bp.range_low_threshold, "id_columns": len(pids.columns)}, fp)
 
 
+def floor_oracle(ctx):
+    def f(case):
+        if case["op"] == "lcf" and any(c < case["lt"] for c, _ in case["trackers"]) and not case["impl"]:
+            ctx.oracle_fail(f"group below low_threshold={case['lt']} passes the low-count filter: trackers {case['trackers']} (sd {case['sd']}, gap {case['gap']}, "
+                            f"deviate {case.get('deviate')})", case, "floor")
+    return f
+
+
+def directed_tail_search(ctx):
+    """A string held by 2 entities (implicit ids) in a table whose salt is chosen - by brute force with the harness's own SHA-256 / Box-Muller - so that
+    the deviate of exactly that group lies far in the lower tail; parameters with layer_sd < 1. The oracle is the property on the real sample()."""
+    import hashlib, math
+    from syndiffix import Synthesizer
+    from syndiffix.common import AnonymizationParams, SuppressionParams, BucketizationParams
+    from syndiffix.clustering.strategy import SingleClustering
+    hp = lambda i: int.from_bytes(hashlib.blake2b(int(i).to_bytes(8, "little"), digest_size=8).digest(), "little")
+    hstep = int.from_bytes(hashlib.blake2b(b"suppress", digest_size=8).digest(), "little")
+    df = pd.DataFrame({"s": ["a"] * 30 + ["m"] * 2 + ["z"] * 30})
+    seed = hp(31) ^ hp(32)                      # RowIndex of the two rows holding "m"
+    found = []
+    for k in range(1500000):
+        salt = b"tail%08d" % k
+        m = hstep ^ int.from_bytes(hashlib.sha256(salt + seed.to_bytes(8, "little")).digest()[:8], "little")
+        u1 = max((m & 0x7FFFFFFF) / 0x7FFFFFFF, 2.220446049250313e-16)
+        if u1 > 0.00034: continue
+        z = math.sqrt(-2.0 * math.log(u1)) * math.sin(2.0 * math.pi * (((m >> 32) & 0x7FFFFFFF) / 0x7FFFFFFF))
+        if z <= -4.05:
+            found.append((salt, z))
+            if len(found) >= 6: break
+    S = ctx.stream("O-tail-salts", "62-row string table, the string 'm' held by 2 entities, salts for which that group's deviate is <= -4.05; layer_sd in {0.5, 0.4}, "
+                   "low_threshold 3: 'm' must not be released; non-trivial = every case")
+    for salt, z in found:
+        for sd, gap in ((0.5, 2.0), (0.4, 1.7), (0.5, 2.5)):
+            ap = AnonymizationParams(salt=salt, low_count_params=SuppressionParams(3, sd, gap), layer_noise_sd=0.0)
+            out = Synthesizer(df, anonymization_params=ap, bucketization_params=BucketizationParams(singularity_low_threshold=2, range_low_threshold=2),
+                              clustering=SingleClustering()).sample()
+            S.count((salt, sd, gap), True, {"salt": salt.decode(), "deviate": round(z, 3), "sd": sd, "gap": gap, "released": sorted(set(out["s"].dropna()))})
+            if "m" in set(out["s"].dropna()):
+                ctx.oracle_fail(f"string 'm' held by 2 distinct entities released verbatim (low_threshold 3, layer_sd {sd}, low_mean_gap {gap}, salt {salt!r}: the group's deviate is {z:.3f})",
+                                {"table": "['a']*30 + ['m']*2 + ['z']*30, implicit ids", "salt": salt.decode(), "lt": 3, "sd": sd, "gap": gap, "deviate": z}, "floor-string")
+
+
 def run(ctx, built):
+    AS.stream_lcf(ctx, built, floor_oracle(ctx), parts=("extreme",))
     TS.stream_harvest(ctx, built, ctx.scale(25, 300), harvest_oracle(ctx), max_rows=ctx.scale(160, 500))
     TS.stream_tree(ctx, built, ctx.scale(8, 80), max_rows=ctx.scale(120, 400))
     stream_strings(ctx, ctx.scale(12, 150))
@@ -160,5 +204,5 @@ def corpus_f3(ctx):
 
 def search(ctx, seeds):
     sub = Ctx(ctx.pid, "quick", ctx.seed + 982451653)
-    TS.stream_harvest(sub, False, 80, harvest_oracle(sub)); stream_strings(sub, 40)
+    TS.stream_harvest(sub, False, 80, harvest_oracle(sub)); stream_strings(sub, 40); directed_tail_search(sub)
     ctx.oracle_failures += sub.oracle_failures
